@@ -1,6 +1,7 @@
 """C07 - irreducible K-points + symmetrisation reproduce the unsymmetrised full-grid run."""
 import itertools
 import math
+import os
 from fractions import Fraction as Fr
 
 import numpy as np
@@ -525,7 +526,26 @@ def energies_for_calculators(E):
     trans = np.array([abs(E[:, m] - E[:, n]) for n in range(E.shape[1]) for m in range(n + 1, E.shape[1])]).reshape(-1)
     trans = trans[trans > 0.05]
     om = np.quantile(trans, [0.3, 0.75]) if trans.size else np.array([0.3, 1.1])
-    return np.round(Ef, 3), np.round(om, 3)
+    Ef = np.round(Ef, 3)
+    # The T=0 binning of the static calculators, iEf = ceil((E - EFmin)/dEF), is discontinuous where a band energy
+    # sits exactly on the lattice  Ef[0] + j*dEF :  symmetry-equivalent k-points, whose energies agree only to
+    # rounding (1e-16), then fall into different bins (observed: thorough seed 8, hexagonal model with a dyadic
+    # on-site energy equal to a Fermi level at the M points of a 2x2x1 grid).  That is the measure-zero case treated
+    # by C13, not a failure of the symmetry reduction: move the Fermi levels off the band energies of the grid.
+    dE = Ef[1] - Ef[0]
+    LAST_SHIFTS[0] = 0
+    for _ in range(40):
+        if dE <= 0:
+            break
+        fr = ((Es - Ef[0]) / dE) % 1.0
+        if min(fr.min(), 1.0 - fr.max()) > 1e-6:
+            break
+        Ef = Ef + 0.000731
+        LAST_SHIFTS[0] += 1
+    return Ef, np.round(om, 3)
+
+
+LAST_SHIFTS = [0]
 
 
 def gap_analysis(r0, degen_thresh=1e-4):
@@ -587,20 +607,28 @@ def compare_results(ctx, r1, r0, scales, case, kf=None, tolrel=1e-9, kf_by_quant
 
 
 def companion_scales(system0, div, fft, make):
-    """order of magnitude of every quantity in the unsymmetrised companion model on the same k-points
-    (evaluated as ONE K-point whose FFT grid is the whole grid: cheap)"""
+    """order of magnitude of every quantity in the unsymmetrised companion model: on the same k-points (evaluated as
+    ONE K-point whose FFT grid is the whole grid: cheap) and on the next finer grid (whole grid + 1 per direction).
+    The second grid matters when every point of the first is a time-reversal invariant momentum (2x2x1: Gamma and M):
+    there all k-odd factors - band velocities, hence every Fermi-surface quantity - vanish identically, the companion
+    scale is 0 and the comparison would degenerate into rounding noise (1e-24) against rounding noise (observed:
+    thorough seed 8, a false alarm).  The scale only fixes the ABSOLUTE tolerance 1e-9 x natural magnitude."""
     import wannierberri as wb
-    with quiet():
-        grid = wb.Grid(system0, NKdiv=(1, 1, 1), NKFFT=tuple(int(a * b) for a, b in zip(div, fft)))
-        r = wb.run(system0, grid, make(), use_irred_kpt=False, symmetrize=False, parallel=False,
-                   print_progress_step_time=1e9)
+    whole = tuple(int(a * b) for a, b in zip(div, fft))
     sc = {}
-    for key, v in r.results.items():
-        if hasattr(v, "kpoints"):
-            for q in v.results:
-                sc[("tab", q)] = float(np.abs(v.results[q].data).max())
-        else:
-            sc[key] = float(np.abs(v.data).max())
+    for nk in (whole, tuple(n + 1 for n in whole)):
+        with quiet():
+            grid = wb.Grid(system0, NKdiv=(1, 1, 1), NKFFT=nk)
+            r = wb.run(system0, grid, make(), use_irred_kpt=False, symmetrize=False, parallel=False,
+                       print_progress_step_time=1e9)
+        for key, v in r.results.items():
+            if hasattr(v, "kpoints"):
+                if nk != whole:
+                    continue                     # per-k tabulated values: the scale of the same k-points only
+                for q in v.results:
+                    sc[("tab", q)] = float(np.abs(v.results[q].data).max())
+            else:
+                sc[key] = max(sc.get(key, 0.0), float(np.abs(v.data).max()))
     return sc
 
 
@@ -674,6 +702,8 @@ def oracle_physical(ctx, scale):
         pure_tr = any(tr and np.abs(R - np.eye(3)).max() < 1e-9 for R, tr in G)
         kind = "gray(TR)" if pure_tr else ("magnetic" if has_tr else "noTR")
         Ef, om = energies_for_calculators(Egrid)
+        if LAST_SHIFTS[0]:
+            ctx.count("oracle.physical.Fermi_levels_moved_off_a_band_energy_of_the_grid")
         state = rng.getstate()
         make, names_c, tnames = real_calculators(rng, ctx.tier == "thorough" and it % 3 == 0, Ef, om)
         # the companion only supplies the natural order of magnitude of every quantity: wide energy grids, so that
